@@ -9,8 +9,6 @@ import (
 	"net/http"
 	"strings"
 
-	"github.com/zitadel/saml/pkg/provider"
-
 	"verif/harness/internal/coqgen"
 	"verif/harness/internal/idp"
 	"verif/harness/internal/xhtml"
@@ -73,6 +71,37 @@ func htmlNewlines(s string) string {
 	return strings.ReplaceAll(strings.ReplaceAll(s, "\r\n", "\n"), "\r", "\n")
 }
 
+// renderEndToEnd produces a POST-binding page through the real handlers (callback for the login page, SLO for the
+// logout page); used when the verif hooks do not compile against the current tree.
+func renderEndToEnd(env *idp.Env, buf *bytes.Buffer, logout bool, relay, url string) (string, error) {
+	st := env.Storage
+	if url == "" {
+		return "", fmt.Errorf("empty URL: no form is produced")
+	}
+	if logout {
+		st.ClearSPs()
+		m := idp.SPMeta{EntityID: "https://sp.example/metadata", ACS: []idp.ACS{{Index: "0", Binding: idp.PostBinding, Location: "https://sp.example/acs"}}, SLO: []idp.SLO{{Binding: idp.PostBinding, Location: url}}}
+		if _, err := st.Register("app-1", m); err != nil {
+			return "", err
+		}
+		lr := `<samlp:LogoutRequest xmlns:samlp="urn:oasis:names:tc:SAML:2.0:protocol" xmlns:saml="urn:oasis:names:tc:SAML:2.0:assertion" ID="_lo" Version="2.0"><saml:Issuer>https://sp.example/metadata</saml:Issuer><saml:NameID>u</saml:NameID></samlp:LogoutRequest>`
+		rep := env.Do(idp.ReqSpec{Method: http.MethodPost, Path: "/SLO", Body: []idp.Param{idp.Q("SAMLRequest", idp.B64([]byte(lr))), idp.Q("RelayState", relay)}}.HTTP())
+		if rep.Kind != "saml-post" {
+			return "", fmt.Errorf("no form (reply %s)", rep.Kind)
+		}
+		buf.Write(rep.Body)
+		return rep.FormMsg, nil
+	}
+	st.Apps["app-1"] = "https://sp.example/metadata"
+	st.Requests["c17"] = &idp.AuthReq{ID: "c17", AppID: "app-1", RelayState: relay, ACS: url, Binding: idp.PostBinding, AuthReqID: "_r"}
+	rep := env.Do(idp.ReqSpec{Method: http.MethodGet, Path: "/login", Query: []idp.Param{idp.Q("id", "c17")}}.HTTP())
+	if rep.Kind != "saml-post" {
+		return "", fmt.Errorf("no form (reply %s)", rep.Kind)
+	}
+	buf.Write(rep.Body)
+	return rep.FormMsg, nil
+}
+
 func Run(dir, tier string, seed int64) error {
 	run := coqgen.NewRun(dir, "C17", tier, seed)
 	run.Imports = "From Saml Require Import Base.Bytes Corr.C17Corr."
@@ -124,11 +153,10 @@ func Run(dir, tier string, seed int64) error {
 	segs := map[bool][]string{}
 	for _, lo := range []bool{false, true} {
 		var buf bytes.Buffer
-		if lo {
-			provider.VerifRenderLogoutForm(env.Provider, &buf, "MARKERTWO", "MARKERTHREE", "MARKERONE")
-		} else {
-			provider.VerifRenderPostForm(env.Provider, &buf, "MARKERTWO", "MARKERTHREE", "MARKERONE")
+		if !haveHooks {
+			continue
 		}
+		renderForm(env, &buf, lo, "MARKERTWO", "MARKERTHREE", "MARKERONE")
 		p := buf.String()
 		i1, i2, i3 := strings.Index(p, "MARKERONE"), strings.Index(p, "MARKERTWO"), strings.Index(p, "MARKERTHREE")
 		if i1 > 0 && i2 > i1 && i3 > i2 {
@@ -151,10 +179,13 @@ func Run(dir, tier string, seed int64) error {
 	for id, c := range cases {
 		var buf bytes.Buffer
 		var err error
-		if c.logout {
-			err = provider.VerifRenderLogoutForm(env.Provider, &buf, c.relay, c.msg, c.url)
+		if haveHooks {
+			err = renderForm(env, &buf, c.logout, c.relay, c.msg, c.url)
 		} else {
-			err = provider.VerifRenderPostForm(env.Provider, &buf, c.relay, c.msg, c.url)
+			// no hooks: drive the real handlers; the message is whatever they produce
+			var msg string
+			msg, err = renderEndToEnd(env, &buf, c.logout, c.relay, c.url)
+			c.msg = msg
 		}
 		if err != nil {
 			run.Note("template execution failed for case %d: %v", id, err)
@@ -200,7 +231,10 @@ func Run(dir, tier string, seed int64) error {
 		st.Requests[sid] = &idp.AuthReq{ID: sid, AppID: "app-1", RelayState: h, ACS: "https://sp.example/acs", Binding: idp.PostBinding, AuthReqID: "_r"}
 		rep := env.Do(idp.ReqSpec{Method: http.MethodGet, Path: "/login", Query: []idp.Param{idp.Q("id", sid)}}.HTTP())
 		var buf bytes.Buffer
-		provider.VerifRenderPostForm(env.Provider, &buf, h, rep.FormMsg, "https://sp.example/acs")
+		if !haveHooks {
+			break
+		}
+		renderForm(env, &buf, false, h, rep.FormMsg, "https://sp.example/acs")
 		run.Res.Evaluations++
 		if rep.Kind != "saml-post" || !bytes.Equal(buf.Bytes(), rep.Body) {
 			run.Fail(coqgen.Failure{ID: 100000 + i, Class: "handler-page-differs-from-template", What: "the page sent by the callback differs from the template rendering of the same three values", Input: map[string]interface{}{"relay": h}})
